@@ -221,6 +221,8 @@ pub enum Entry3 {
     SortedSlice,
     /// bare k-mers -> compress_kmers_no_exts
     NoExts,
+    /// sorted slice handed to compress_kmers as it is (extensions to rejected / out-of-shard k-mers still present)
+    SortedSliceRaw,
 }
 
 /// Build a BaseGraph through the chosen entry point.  Returns the graph and the model table that
@@ -273,6 +275,15 @@ pub fn build_base<K: Kmer, P: PayKind>(
             // describe what compression saw: the real (pruned) extension bytes
             let seen: PTable<P> = v.iter().map(|(kk, (e, d))| (kseq(kk), (e.val, d.clone()))).collect();
             Ok((g, seen))
+        }
+        Entry3::SortedSliceRaw => {
+            let mut v: Vec<(K, (Exts, P))> = keys
+                .into_iter()
+                .zip(exts.into_iter().zip(data.into_iter()))
+                .collect();
+            v.sort_by(|a, b| a.0.cmp(&b.0));
+            let g = compress_kmers(stranded, &spec, &v);
+            Ok((g, pt))
         }
         Entry3::NoExts => {
             let v: Vec<(K, P)> = keys.into_iter().zip(data.into_iter()).collect();
